@@ -32,8 +32,49 @@ type Cell struct {
 	v     Value
 	sub   []*Cell
 	epoch int32
+	lazyZ Value // array cells of scalars: elements are created on first access with this value
+	n     int   // logical length of a lazily allocated array
 	taint uint8 // 1: global of a package whose initialiser was not (fully) executed, never stored to; 2: provisional (own init running)
 }
+
+// at returns the i-th element cell of an array cell, materialising lazily allocated elements.
+func (c *Cell) at(i int) *Cell {
+	if i >= len(c.sub) && c.lazyZ != nil {
+		if i >= c.n {
+			panic(fmt.Sprintf("Cell.at: index %d beyond array length %d", i, c.n))
+		}
+		nl := 2 * len(c.sub)
+		if nl < i+1 {
+			nl = i + 1
+		}
+		if nl < 16 {
+			nl = 16
+		}
+		if nl > c.n {
+			nl = c.n
+		}
+		ns := make([]*Cell, nl)
+		copy(ns, c.sub)
+		c.sub = ns
+	}
+	s := c.sub[i]
+	if s == nil {
+		s = &Cell{v: c.lazyZ, epoch: c.epoch}
+		c.sub[i] = s
+	}
+	return s
+}
+
+// length is the number of elements / fields of an aggregate cell.
+func (c *Cell) length() int {
+	if c.lazyZ != nil {
+		return c.n
+	}
+	return len(c.sub)
+}
+
+// isAgg reports whether the cell holds a struct or array.
+func (c *Cell) isAgg() bool { return c.sub != nil || c.lazyZ != nil }
 
 type Ptr struct{ c *Cell }
 
@@ -250,29 +291,66 @@ func (in *Interp) newCell(v Value) *Cell {
 	return c
 }
 
+// allocType allocates zeroed memory for a variable of type t (large scalar arrays lazily).
+func (in *Interp) allocType(t types.Type) *Cell {
+	switch tt := under(t).(type) {
+	case *types.Array:
+		n := int(tt.Len())
+		switch under(tt.Elem()).(type) {
+		case *types.Array, *types.Struct:
+			c := &Cell{epoch: in.epoch, sub: make([]*Cell, n)}
+			for i := range c.sub {
+				c.sub[i] = in.allocType(tt.Elem())
+			}
+			return c
+		}
+		return in.newArrayCell(n, in.zero(tt.Elem()))
+	case *types.Struct:
+		c := &Cell{epoch: in.epoch, sub: make([]*Cell, tt.NumFields())}
+		for i := range c.sub {
+			c.sub[i] = in.allocType(tt.Field(i).Type())
+		}
+		return c
+	}
+	return in.newCell(in.zero(t))
+}
+
 // newArrayCell allocates a backing array of n elements initialised to copies of z.
 func (in *Interp) newArrayCell(n int, z Value) *Cell {
-	c := &Cell{epoch: in.epoch, sub: make([]*Cell, n)}
-	in.nCells += n
 	if n > in.opts.MaxAlloc {
 		panic(boundExceeded{fmt.Sprintf("allocation of %d elements exceeds MaxAlloc", n)})
 	}
+	if _, agg := z.(*Agg); !agg && n > 64 {
+		return &Cell{epoch: in.epoch, lazyZ: z, n: n}
+	}
+	c := &Cell{epoch: in.epoch, sub: make([]*Cell, n)}
+	in.nCells += n
 	_, agg := z.(*Agg)
-	for i := range c.sub {
-		if agg {
+	if agg {
+		for i := range c.sub {
 			c.sub[i] = in.newCell(in.copyVal(z))
-		} else {
-			c.sub[i] = &Cell{v: z, epoch: in.epoch}
 		}
+		return c
+	}
+	slab := make([]Cell, n)
+	for i := range c.sub {
+		slab[i].v = z
+		slab[i].epoch = in.epoch
+		c.sub[i] = &slab[i]
 	}
 	return c
 }
 
 func (in *Interp) load(c *Cell) Value {
-	if c.sub != nil {
-		a := &Agg{e: make([]Value, len(c.sub))}
-		for i, s := range c.sub {
-			a.e[i] = in.load(s)
+	if c.isAgg() {
+		n := c.length()
+		a := &Agg{e: make([]Value, n)}
+		for i := 0; i < n; i++ {
+			if i >= len(c.sub) || c.sub[i] == nil {
+				a.e[i] = c.lazyZ
+				continue
+			}
+			a.e[i] = in.load(c.sub[i])
 		}
 		return a
 	}
@@ -289,7 +367,7 @@ func (in *Interp) globalNameOf(c *Cell) string {
 			return true
 		}
 		for _, s := range r.sub {
-			if has(s) {
+			if s != nil && has(s) {
 				return true
 			}
 		}
@@ -308,18 +386,20 @@ func setTaint(c *Cell, from, to uint8) {
 		c.taint = to
 	}
 	for _, s := range c.sub {
-		setTaint(s, from, to)
+		if s != nil {
+			setTaint(s, from, to)
+		}
 	}
 }
 
 func (in *Interp) store(c *Cell, v Value) {
-	if c.sub != nil {
+	if c.isAgg() {
 		a, ok := v.(*Agg)
-		if !ok || len(a.e) != len(c.sub) {
-			panic(fmt.Sprintf("store: aggregate shape mismatch: cell has %d sub-cells, value is %T", len(c.sub), v))
+		if !ok || len(a.e) != c.length() {
+			panic(fmt.Sprintf("store: aggregate shape mismatch: cell has %d sub-cells, value is %T", c.length(), v))
 		}
-		for i, s := range c.sub {
-			in.store(s, a.e[i])
+		for i := range a.e {
+			in.store(c.at(i), a.e[i])
 		}
 		return
 	}
@@ -595,7 +675,7 @@ func (in *Interp) strCompare(a, b []*sym.Term) *sym.Term {
 func (in *Interp) sliceBytes(s Slice) []*sym.Term {
 	out := make([]*sym.Term, s.len)
 	for i := 0; i < s.len; i++ {
-		out[i] = s.arr.sub[s.off+i].v.(*sym.Term)
+		out[i] = s.arr.at(s.off+i).v.(*sym.Term)
 	}
 	return out
 }
